@@ -6,7 +6,7 @@ import ast
 from typing import Dict, List, Set
 
 from ..core import astq
-from ..core.program import AnalysisError, Program, norm, short, walk_function
+from ..core.program import AnalysisError, Program, ancestors, norm, short, walk_function
 from ..report import Result
 from ..runner import Variant
 from . import c09, c17
@@ -136,7 +136,19 @@ def check_minpeaks(prog: Program, res: Result) -> None:
            "per-instance peak counts are not computed from the assignment table", fi.where)
     rets = [n for n in walk_function(fi.node) if isinstance(n, ast.Return)]
     res.ob(R, len(rets) == 1 and norm(rets[0].value) == "instance_assignments", fi.qualname, "returns the assignment table", "does not return the assignment table", fi.where)
-    res.floor(R, 6)
+    # the threshold is the caller's COUNT unless it is a float fraction (decided by type, not by value: the count 1 is valid)
+    re_defs = [st for st in walk_function(fi.node) if isinstance(st, ast.Assign) and norm(st.targets[0]) == "min_instance_peaks"]
+    for st in re_defs:
+        guards = [a for a in ancestors(st) if isinstance(a, ast.If)]
+        typed = any(isinstance(g.test, ast.Call) and norm(g.test.func) == "isinstance" and len(g.test.args) == 2 and norm(g.test.args[0]) == "min_instance_peaks"
+                    and norm(g.test.args[1]) in ("float", "(float,)", "(float, np.floating)", "(float, np.float32, np.float64)") and st in list(ast.walk(ast.Module(body=g.body, type_ignores=[])))
+                    for g in guards)
+        res.ob(R, typed, fi.qualname, "threshold rescaled to a fraction of the nodes only for float arguments",
+               f"`{short(st, 60)}` re-interprets min_instance_peaks under `{short(guards[0].test, 50) if guards else 'no guard'}`: an integer COUNT (e.g. 1) is turned into a "
+               "fraction of the node count, so instances with enough peaks are dropped", f"{fi.module.relpath}:{st.lineno}")
+        ok_val = isinstance(st.value, ast.Call) and norm(st.value.func) in ("int", "round", "math.ceil", "np.ceil") and "min_instance_peaks * n_nodes" in norm(st.value).replace("n_nodes * min_instance_peaks", "min_instance_peaks * n_nodes")
+        res.ob(R, ok_val, fi.qualname, "fraction threshold = fraction * n_nodes", f"`{short(st, 60)}` is not fraction * n_nodes", f"{fi.module.relpath}:{st.lineno}")
+    res.floor(R, 8)
 
 
 def check_partition(prog: Program, res: Result) -> None:
@@ -190,6 +202,7 @@ VARIANTS = [
     Variant("edge-mask-missed", F, "        line_scores = match_line_scores_sample[in_edge]\n", "        line_scores = match_line_scores_sample\n", "C08-filter"),
     Variant("conn-swapped", F, "            EdgeConnection(src, dst, score)\n", "            EdgeConnection(dst, src, score)\n", "C08-filter"),
     Variant("node-mask-missed", F, "        peak_scores.append(peak_scores_sample[in_channel])", "        peak_scores.append(peak_scores_sample)", "C08-filter"),
+    Variant("minpeaks-fraction-by-value", F, "        if isinstance(min_instance_peaks, float):", "        if min_instance_peaks <= 1:", "C08-minpeaks"),
     Variant("minpeaks-strict", F, "            if instance_peak_counts[instance] >= min_instance_peaks", "            if instance_peak_counts[instance] > min_instance_peaks", "C08-minpeaks"),
     Variant("part-wrong-peak", F, "        predicted_instances[instance_ind, peak_id.node_ind, :] = peaks[\n            peak_id.node_ind\n        ][peak_id.peak_ind]",
             "        predicted_instances[instance_ind, peak_id.node_ind, :] = peaks[\n            peak_id.node_ind\n        ][instance_ind]", "C08-part"),
